@@ -218,6 +218,10 @@ def zoom(array, zoom, out=None, order=3, mode='constant', cval=0.0, prefilter=Tr
     if out is None:
         output_shape = tuple([int(s * z) for s,z in zip(array.shape, zoom)])
         out = np.empty(output_shape, dtype=array.dtype)
+    elif not isinstance(out, np.ndarray) or out.ndim != array.ndim:
+        raise ValueError('mahotas.interpolate.zoom: `out` must be an array with as many dimensions as the input')
+    elif not (out.flags.c_contiguous and out.flags.writeable):
+        raise ValueError('mahotas.interpolate.zoom: `out` is not a writeable c-array')
     zoom_div = np.array(out.shape, float) - 1
     zoom = (np.array(array.shape) - 1) / zoom_div
     zoom = np.ascontiguousarray(zoom)
